@@ -14,7 +14,7 @@ def one(bid):
     d = os.path.join(B, bid)
     tmp = tempfile.mkdtemp(prefix="bacverif-benign-")
     try:
-        shutil.copytree("/repo/py34", os.path.join(tmp, "py34"), ignore=shutil.ignore_patterns("__pycache__", "*.pyc"))
+        subprocess.run("git -C /repo archive HEAD py34 | tar -x -C %s" % tmp, shell=True, check=True)   # the committed tree: /repo\'s working tree may carry a seeded patch under test
         a = subprocess.run(["patch", "-p1", "-s", "-F3", "--no-backup-if-mismatch", "-d", tmp, "-i", os.path.join(d, "patch.diff")], capture_output=True, text=True)
         if a.returncode:
             return bid, "STALE", []
